@@ -1,0 +1,32 @@
+//go:build verif
+
+// Contracts for package util, read by the gowp verification-condition
+// generator (/verif). This file contains comments only: it adds no symbol and
+// does not change the compiled program with the build tag on or off.
+
+package util
+
+//@ func Max
+//@ ensures result == (first > second ? first : second)
+
+//@ func Min
+//@ ensures result == (first <= second ? first : second)
+
+//@ func Max16
+//@ ensures result == (first > second ? first : second)
+
+//@ func Max32
+//@ ensures result == (first > second ? first : second)
+
+//@ func Min32
+//@ ensures result == (first <= second ? first : second)
+
+//@ func Constrain
+//@ ensures min <= max ==> min <= result && result <= max
+//@ ensures result == (val < min ? min : (val > max ? max : val))
+
+//@ func Constrain32
+//@ ensures result == (val < min ? min : (val > max ? max : val))
+
+//@ func AsUint16
+//@ ensures result == (val > 65535 ? 65535 : (val < 0 ? 0 : val))
